@@ -355,6 +355,9 @@ func crashDriver(args []string) error {
 		pi := 0
 		for j := 0; j < k; j++ {
 			ln := 1 + rng.Intn(3)
+			if j == 0 && fi%2 == 0 {
+				ln = 1 // "exactly one event (version 0)" is indistinguishable from "nothing" in several places
+			}
 			b := [][]byte{}
 			for x := 0; x < ln; x++ {
 				b = append(b, u[perm[pi%len(perm)]])
